@@ -330,16 +330,21 @@ def neg_probes():
 
 def generate(tier):
     sh = shapes(tier)
-    fns, calls, nchecks = [], [], 0
+    nchecks = 0
+    NCH = 12
+    chunks = [[] for _ in range(NCH)]
     for sid, (vs, en, mode, bound, add_drop) in enumerate(sh):
         code, n = shape_code(sid, vs, en, mode, bound, add_drop)
-        fns.append(code)
-        calls.append(f"    shape_{sid}(&mut f, &s, &w);")
+        chunks[sid % NCH].append((sid, code))
         nchecks += n
-    main = ("\nfn run<'gc>(mc: &Mutation<'gc>) -> Vec<String> {\n    let mut f: Vec<String> = vec![];\n    let s: Vec<S<'gc>> = (0..24u32).map(|i| Gc::new(mc, i)).collect();\n"
-            "    let w: Vec<W<'gc>> = (100..124u32).map(|i| Gc::downgrade(Gc::new(mc, i))).collect();\n" + "\n".join(calls) + "\n    fixed(&mut f, &s, &w);\n    f\n}\n"
-            "fn main() {\n    let fails = rootless_mutate(|mc| run(mc));\n    for x in fails.iter().take(40) { println!(\"C15 violated: {x}\"); }\n    if !fails.is_empty() { println!(\"{} mismatches\", fails.len()); std::process::exit(1); }\n}\n")
-    ps = [Probe("shapes", HEAD + "\n".join(fns) + FIXED + main, "run", group="shapes")]
+    ps = []
+    for ci, ch in enumerate(chunks):
+        calls = "\n".join(f"    shape_{sid}(&mut f, &s, &w);" for sid, _ in ch)
+        main = ("\nfn run<'gc>(mc: &Mutation<'gc>) -> Vec<String> {\n    let mut f: Vec<String> = vec![];\n    let s: Vec<S<'gc>> = (0..24u32).map(|i| Gc::new(mc, i)).collect();\n"
+                "    let w: Vec<W<'gc>> = (100..124u32).map(|i| Gc::downgrade(Gc::new(mc, i))).collect();\n" + calls + ("\n    fixed(&mut f, &s, &w);" if ci == 0 else "") + "\n    f\n}\n"
+                "fn main() {\n    let fails = rootless_mutate(|mc| run(mc));\n    for x in fails.iter().take(40) { println!(\"C15 violated: {x}\"); }\n    if !fails.is_empty() { println!(\"{} mismatches\", fails.len()); std::process::exit(1); }\n}\n")
+        # every shape is a valid use of the derive (the whole program compiles on the reference tree)
+        ps.append(Probe(f"shapes/{ci}", HEAD + "\n".join(code for _, code in ch) + (FIXED if ci == 0 else "") + main, "valid_run", group="shapes"))
     ps += neg_probes()
     return {
         "probes": ps,
